@@ -61,6 +61,18 @@ fn case_json(case: &Case) -> Value {
     serde_json::to_value(case).unwrap()
 }
 
+/// Rendering the program for the detail of a violation is the expensive part of reporting; after
+/// many violations (only the first 25 per class are kept anyway) the rendering is skipped. The
+/// case itself is always recorded, `--replay` reproduces the full detail.
+static VIOLATIONS_REPORTED: std::sync::atomic::AtomicU64 = std::sync::atomic::AtomicU64::new(0);
+fn render_for_detail(project: &Project) -> String {
+    if VIOLATIONS_REPORTED.fetch_add(1, std::sync::atomic::Ordering::Relaxed) < 5000 {
+        render(project)
+    } else {
+        "(omitted: more than 5000 violations in this run; replay the case)".to_string()
+    }
+}
+
 /// Run one check on the prepared analysis results; `Err` = panic message.
 fn run_check(run: fn(&AnalysisResults, &Value) -> (Vec<props::ccl::utils::log::LogMessage>, Vec<CweWarning>), results: &AnalysisResults, config: &Value) -> Result<Vec<CweWarning>, String> {
     catch(|| run(results, config).1)
@@ -97,7 +109,7 @@ fn assign(cand: &[Vec<usize>], w: usize, used: &mut Vec<bool>, must: &[bool]) ->
 }
 
 fn judge_toctou(ctx: &Ctx, case: &Case, flow: &Flow, project: &Project, pairs: &[(&str, &str)], got: Result<Vec<CweWarning>, String>) -> (usize, usize) {
-    let detail = |extra: Value| json!({"check": "CWE367", "pairs": pairs, "program_seen_by_check": render(project), "info": extra});
+    let detail = |extra: Value| json!({"check": "CWE367", "pairs": pairs, "program_seen_by_check": render_for_detail(project), "info": extra});
     let warnings = match got {
         Err(p) => {
             ctx.violation(format!("cwe367 panic {}", panic_site(&p)), case_json(case), detail(json!({"panic": p})));
@@ -164,7 +176,7 @@ fn judge_toctou(ctx: &Ctx, case: &Case, flow: &Flow, project: &Project, pairs: &
 }
 
 fn judge_chroot(ctx: &Ctx, case: &Case, flow: &Flow, project: &Project, privs: &[&str], got: Result<Vec<CweWarning>, String>) -> (usize, usize) {
-    let detail = |extra: Value| json!({"check": "CWE243", "priviledge_dropping_functions": privs, "chdir_imported": case.chdir_imported, "program_seen_by_check": render(project), "info": extra});
+    let detail = |extra: Value| json!({"check": "CWE243", "priviledge_dropping_functions": privs, "chdir_imported": case.chdir_imported, "program_seen_by_check": render_for_detail(project), "info": extra});
     let imported_privs: Vec<Callee> = privs.iter().filter_map(|p| Callee::from_name(p)).collect();
     let exp = chroot_expectation(flow, &imported_privs);
     let demanded = exp.iter().filter(|e| e.demand == Demand::Warn).count();
@@ -214,15 +226,14 @@ fn judge_chroot(ctx: &Ctx, case: &Case, flow: &Flow, project: &Project, privs: &
 }
 
 fn run_case(ctx: &Ctx, case: &Case) {
-    let raw = build(case);
-    let mut project = raw.clone();
+    let mut project = build(case);
     if let Err(p) = catch(|| {
         let _ = project.normalize_basic();
         if case.full_normalize {
             let _ = project.normalize_optimize();
         }
     }) {
-        ctx.violation(format!("normalization panic {}", panic_site(&p)), case_json(case), json!({"panic": p, "program": render(&raw)}));
+        ctx.violation(format!("normalization panic {}", panic_site(&p)), case_json(case), json!({"panic": p, "program": render(&build(case))}));
         return;
     }
     let cfg = match catch(|| get_program_cfg(&project.program)) {
@@ -308,13 +319,12 @@ fn main() {
         }
     }
     if thorough {
-        for h in helper_shapes(true) {
-            families.push(Family { n0: 4, helper: Some(h), n1: 0, modes: vec![false, true] });
+        for (i, h) in helper_shapes(true).into_iter().enumerate() {
+            // the optimizing normalization is the expensive part: for 4-block functions it is run with the first callee shape only
+            families.push(Family { n0: 4, helper: Some(h), n1: 0, modes: if i == 0 { vec![false, true] } else { vec![false] } });
         }
-        for n0 in 1..=3 {
-            for n1 in 1..=2 {
-                families.push(Family { n0, helper: None, n1, modes: vec![false] });
-            }
+        for (n0, n1) in [(1, 1), (1, 2), (2, 1), (2, 2), (3, 1)] {
+            families.push(Family { n0, helper: None, n1, modes: vec![false] });
         }
     }
     let mut total = 0u64;
@@ -356,10 +366,10 @@ fn main() {
         "bounds",
         json!({"function_under_test_blocks": if thorough { "1..=4" } else { "1..=3" },
                "terminators": "none | return | jump t | cond-jump t,t' | call {check,use,chroot,chdir,setuid,other,self,second function} with return target r or without; t,t',r over all blocks of the function",
-               "second_function": if thorough { "8 callee shapes (3 for 4-block functions) and every function with <= 2 blocks over the same alphabet" } else { "8 callee shapes" },
+               "second_function": if thorough { "8 callee shapes (3 for 4-block functions); every second function with <= 2 blocks over the same alphabet for functions under test with <= 2 blocks, with 1 block for 3-block functions" } else { "8 callee shapes" },
                "import_table": "with and without chdir (programs without chdir import cannot call it)",
                "cwe367_configs": PAIR_CONFIGS.len(), "cwe243_configs": PRIV_CONFIGS.len(),
-               "normalization": "normalize_basic, and normalize_basic+normalize_optimize",
+               "normalization": "normalize_basic, and normalize_basic+normalize_optimize (4-block functions: the latter with the first callee shape only; exhaustive second functions: normalize_basic only)",
                "total_cases": total}),
     );
     ctx.assume("jump and return targets stay inside the own function; blocks have no defs; symbol names are unique in the import table (extractor guarantee)");
